@@ -95,3 +95,79 @@ def unit_stream_script(position, shapes):
 
 class ProbeNotApplicable(Exception):
     """The object does not draw its innovation the way the probe can script (e.g. block-wise): nothing can be observed."""
+
+
+class _LedgerGenerator(np.random.Generator):
+    """A Generator on the given bit generator (same stream as the one the library asked for) whose Gaussian draws are entered in a ledger."""
+
+    def __init__(self, bit_generator, ledger):
+        super().__init__(bit_generator)
+        self._ledger = ledger
+        self._gid = ledger.new_generator()
+
+    def normal(self, loc=0.0, scale=1.0, size=None):
+        v = super().normal(loc, scale, size)
+        self._ledger.enter(self._gid, v, loc, scale)
+        return v
+
+    def standard_normal(self, size=None, dtype=np.float64, out=None):
+        v = super().standard_normal(size, dtype, out)
+        self._ledger.enter(self._gid, v, 0.0, 1.0)
+        return v
+
+
+class DrawLedger:
+    """Exactly-once monitor over random draws: while active, every Generator the library obtains from
+    numpy.random.default_rng(<not a Generator>) is replaced by one with the same stream that books each Gaussian
+    draw. Independent draws are distinct float64 numbers (a coincidence has probability ~ n^2 2^-53); a standard
+    draw that appears twice was produced by two generators in the same state, i.e. one random number was used
+    for two purposes and the two quantities built from it are not independent."""
+
+    def __init__(self):
+        self.entries = []       # (generator id, standardised values)
+        self.ngen = 0
+        self._real = None
+
+    def new_generator(self):
+        self.ngen += 1
+        return self.ngen - 1
+
+    def enter(self, gid, v, loc, scale):
+        a = np.asarray(v, dtype=np.float64).ravel()
+        if np.ndim(loc) == 0 and np.ndim(scale) == 0 and float(scale) != 0:
+            a = (a - float(loc)) / float(scale)
+        self.entries.append((gid, a.copy()))
+
+    def __enter__(self):
+        self._real = np.random.default_rng
+        ledger = self
+
+        def default_rng(seed=None):
+            g = ledger._real(seed)
+            if isinstance(seed, np.random.Generator):
+                return g
+            return _LedgerGenerator(g.bit_generator, ledger)
+
+        np.random.default_rng = default_rng
+        return self
+
+    def __exit__(self, *exc):
+        np.random.default_rng = self._real
+        return False
+
+    def n_draws(self):
+        return int(sum(len(a) for _, a in self.entries))
+
+    def reused(self):
+        """Number of booked values that occur more than once (0 for independent draws) and an example."""
+        if not self.entries:
+            return 0, None
+        allv = np.concatenate([a for _, a in self.entries])
+        gid = np.concatenate([np.full(len(a), g) for g, a in self.entries])
+        order = np.argsort(allv, kind="stable")
+        s = allv[order]
+        same = np.where(s[1:] == s[:-1])[0]
+        if len(same) == 0:
+            return 0, None
+        k = int(same[0])
+        return int(len(same)), {"value": float(s[k]), "generators": [int(gid[order[k]]), int(gid[order[k + 1]])], "generators_created": self.ngen}
